@@ -92,3 +92,15 @@ Definition api_vtable_labels (alpha : bool) : list str := fst (fst (if alpha the
 (* ---- C10 ---- *)
 From PV Require Import model.Output.
 Definition api_coo_dense (nrows ncols : nat) (trip : list (nat * nat * Z)) : list (list Z) := coo_dense nrows ncols trip.
+
+(* ---- C02 ---- *)
+From PV Require Import model.Pc.
+Definition api_pc1 (l : list N) : (nat * nat) := (pc_num N.eq_dec l, pc_den l).
+Definition api_pc2 (l1 l2 : list N) : (nat * nat) := (pc2_num N.eq_dec l1 l2, pc2_den l1 l2).
+Definition api_mults (l : list N) : list nat := mults N.eq_dec l.
+
+(* ---- C05 / C08 ---- *)
+From PV Require Import lib.Condensed.
+Definition api_cdist_wlev (wi wd ws : nat) (xa xb : list str) : list (list nat) := cdist_loop (wlev_dp N.eq_dec wi wd ws) xa xb.
+Definition api_pdist_wlev (wi wd ws : nat) (xs : list str) : list nat := pdist_loop (wlev_dp N.eq_dec wi wd ws) [] xs.
+Definition api_cidx (m i j : nat) : nat := cidx m i j.
